@@ -1,5 +1,12 @@
 #!/bin/sh
-# builds the framework from files on disk only (offline)
+# Builds the framework (bin/vcheck) from files on disk only (offline).
 set -e
 cd "$(dirname "$0")"
-exit 0
+for d in /root/go/pkg/mod/golang.org/toolchain@v0.0.1-go1.25.5.linux-amd64/bin /opt/veriftools/go1.26.8/bin /root/go/pkg/mod/golang.org/toolchain@v0.0.1-go1.26.8.linux-amd64/bin; do
+  if [ -x "$d/go" ]; then PATH="$d:$PATH"; break; fi
+done
+export PATH GOTOOLCHAIN=local GOPROXY=off GOSUMDB=off GOFLAGS=-mod=mod
+unset GOWORK
+mkdir -p bin evidence
+(cd harness && go build -o ../bin/vcheck ./cmd/vcheck)
+echo "setup ok: $(go version)"
